@@ -36,7 +36,7 @@ def node_iri(draw, base):
         host = draw(st.sampled_from(["ex.org", "example.com"]))
     if fam == "urn":
         return "urn:x:" + draw(st.sampled_from(["a", "ab", "b:c"])) + str(draw(st.integers(0, 3)))
-    path = draw(st.sampled_from(["", "res/", "res/", "rest/", "res/item/", "v#", "res#"]))
+    path = draw(st.sampled_from(["", "res/", "res/", "rest/", "res/item/", "v#", "res#", "item:1", "item:10", "isbn:978"]))
     if draw(st.integers(0, 5)) == 0:
         # a "container" IRI that is a proper prefix of its members' IRIs (http://ex.org/res/item vs http://ex.org/res/item/n1)
         return "%s://%s/%s" % (fam, host, path.rstrip("/#") or "res")
